@@ -85,23 +85,38 @@ func VerifC05_return_slashed() {
 	n := 1 + ndLen("n", c05Origins()-1)
 	origins := make([]*types.TokenOriginInfo, n)
 	total := math.ZeroInt()
-	anyNotBonded := false
+	anyNotBonded, anyRemoved := false, false
+	removed := sdk.ValAddress(ndAddr("removedValidator"))
+	ndAssume(string(removed) != string(addrs[0]))
+	ndAssume(string(removed) != string(addrs[1]))
 	for i := 0; i < n; i++ {
 		a := ndBigInt(nm("slashed", i))
 		ndAssume(a.IsPositive() && a.LT(math.NewInt(1000000000)))
-		vi := ndPick(nm("val", i), 2)
-		anyNotBonded = anyNotBonded || !bonded[vi]
-		origins[i] = &types.TokenOriginInfo{DelegatorAddress: ndAddr(nm("selector", i)), ValidatorAddress: addrs[vi], Amount: a}
+		// the validator the stake was taken from: one of the two that exist, or one removed since (the stake then
+		// goes to the first bonded validator)
+		vi := ndPick(nm("val", i), 3)
+		valAddr := removed
+		if vi < 2 {
+			valAddr = addrs[vi]
+			anyNotBonded = anyNotBonded || !bonded[vi]
+		} else {
+			anyRemoved = true
+		}
+		origins[i] = &types.TokenOriginInfo{DelegatorAddress: ndAddr(nm("selector", i)), ValidatorAddress: valAddr, Amount: a}
 		total = total.Add(a)
 	}
 	must2(k.DisputedDelegationAmounts.Set(ctx, hash, types.DelegationsAmounts{TokenOrigins: origins, Total: total}))
 	bank.set(vbMod("dispute"), total)
 	// a transaction-time panic would be recovered, but this runs in the dispute BeginBlocker
+	if anyRemoved {
+		ndAssume(bonded[0] || bonded[1]) // a bonded validator always exists
+	}
 	err := k.ReturnSlashedTokens(ctx, total, hash)
 	ndAssert(err == nil, "no-error")
 	if err != nil {
 		return
 	}
+	ndAssert(!sk.staleArg, "every-delegation-is-made-on-the-validator's-current-record")
 	must2(bank.SendCoinsFromModuleToModule(ctx, "dispute", stakingtypes.BondedPoolName, sdk.NewCoins(sdk.NewCoin("loya", total))))
 	ndReach("returned")
 	ndAssert(sk.ledgerBonded.Add(sk.ledgerNotBonded).Equal(total), "ledger-credited-with-exactly-the-escrowed-stake")
